@@ -331,7 +331,7 @@ Definition ascend_list (s : coll) (t : txn) (x : N) : list N :=
               | XSorted tree =>
                   let items := merge_sort item_le
                                           ((λ kv : N * bytes, (snd kv, fst kv)) <$> map_to_list tree) in
-                  filter (λ i, i ∈ sel_of s t) (snd <$> items)
+                  snd <$> filter (λ it : bytes * N, snd it ∈ sel_of s t) items
               | _ => []
               end
   | None => []
